@@ -25,7 +25,7 @@ class HarnessError(Exception):
 
 class Explorer:
     def __init__(self, ctx, alphabet, *, sizes=None, max_states=None,
-                 check_ops=True, prop='C01', base_case=None):
+                 check_ops=True, prop='C01', base_case=None, prefix=()):
         self.ctx = ctx
         self.alphabet = alphabet
         self.sizes = sizes
@@ -33,7 +33,11 @@ class Explorer:
         self.check_ops = check_ops
         self.prop = prop
         self.base_case = base_case or {}
+        self.prefix = tuple(prefix)     # scripted build executed before the BFS starts
         self.violations = []
+        self.known = []
+        self.n_known = 0
+        self.max_violations = 40
         self.states = 0
         self.transitions = 0
         self.compared = 0
@@ -74,6 +78,13 @@ class Explorer:
         return d
 
     def report(self, v):
+        from . import findings
+        if findings.match(v.get('prop', self.prop), v.get('sig', {})) is not None:
+            # known finding: reported by the runner, does not count towards the cap
+            if self.n_known < 20000:
+                self.known.append(v)
+            self.n_known += 1
+            return
         if len(self.violations) < 2000:
             self.violations.append(v)
         else:
@@ -86,14 +97,23 @@ class Explorer:
         tree = ctx.is_tree
         t0 = ctx.new()
         m0 = model_for(ctx.kind)
+        for op in self.prefix:
+            O.fast_apply(ctx, t0, op)
+            O.apply_model(m0, op)
         c0 = C.dump(t0, tree)
         seen = {c0: 0}
-        frontier = collections.deque([((), m0, c0)])
+        frontier = collections.deque([(self.prefix, m0, c0)])
         self.states = 1
-        self._new_state((), t0, m0, c0, None)
+        self._new_state(self.prefix, t0, m0, c0, None)
         while frontier:
+            if len(self.violations) >= self.max_violations:
+                # the check has failed already; a damaged container can make the state
+                # space unbounded (duplicate keys pile up), so stop expanding
+                self.exhaustive = False
+                self.guards['stopped_after_violations'] += 1
+                break
             hist, model, key = frontier.popleft()
-            depth = len(hist)
+            depth = len(hist) - len(self.prefix)
             first = True
             for op in self.alphabet:
                 slot.set(('E1', ctx.fam, ctx.kind, ctx.impl, self.sizes, hist, op))
